@@ -89,7 +89,9 @@ func canonCuts(ts []textCut) string {
 	return b.String()
 }
 
-var cutWS = []string{"", "", " ", "  ", "\t", " \t", "\r", " \r"}
+// white space around the statements: the property allows the removal of space, tab, CR and LF
+// only; the other white space of Unicode (and VT, FF) is content
+var cutWS = []string{"", "", " ", "  ", "\t", " \t", "\r", " \r", "", " ", "\u00a0", " \u3000", "\u2028", "\u0085 ", "\v", "\f", "\u2003"}
 var cutEOL = []string{"\n", "\n", "\n", "\r\n", "", "\n\n", " \n"}
 var cutText = []string{"a", "text", "x y", "é", "<b>", "}", "{", "#", "%", "a  ", "  b", "\\", "<p class=\"c\">", "</p>"}
 
@@ -118,8 +120,8 @@ func cutTemplate(r *rand.Rand) string {
 	id := 0
 	var closers []string
 	nlines := 1 + r.Intn(7)
-	if r.Intn(15) == 0 {
-		b.WriteString("#!/usr/bin/scriggo\n")
+	if r.Intn(10) == 0 {
+		b.WriteString("#!/usr/bin/scriggo" + []string{"\n", "\r\n", "\r", ""}[r.Intn(4)])
 	}
 	for ln := 0; ln < nlines; ln++ {
 		nitems := 1 + r.Intn(3)
@@ -234,8 +236,8 @@ func cutTemplateStraight(r *rand.Rand) string {
 	var closers []string
 	inRaw := func() bool { return len(closers) > 0 && strings.Contains(closers[len(closers)-1], "raw") || len(closers) > 0 && closers[len(closers)-1] == "{% end %}" && false }
 	nlines := 1 + r.Intn(6)
-	if r.Intn(20) == 0 {
-		b.WriteString("#!/usr/bin/scriggo\n")
+	if r.Intn(8) == 0 {
+		b.WriteString("#!/usr/bin/scriggo" + []string{"\n", "\r\n", "\r", " -x\n", "\r\n\r\n"}[r.Intn(5)])
 	}
 	rawOpen := false
 	for ln := 0; ln < nlines; ln++ {
@@ -399,7 +401,9 @@ func init() {
 			})
 		}
 		// regressions: repaired defects
-		for _, s := range []string{"{% if\n true %}  {% end %}\n", "{% if\n true %}  {% end %}\nabc", "{% raw m %}x{% endm %}{% end raw m %}", "a\n{% if\n true %} \t{% end %}  \n"} {
+		for _, s := range []string{"#!x\r\nabc\n", "#!x\rabc", "#!x\rabc\ndef\n", "#!x", "#!x\n", "#!/usr/bin/env scriggo\r\n{{ 1 }}\r\n", "#!x\r\n\r\n{% if true %}\r\na{% end %}",
+			"\u00a0{% if true %}\n{% end %}\n", "a\n\u3000{% if true %}\u3000\n{% end %}", " \u2028{# c #}\n", "\u0085{% _ = 3 %}\u0085\n", "\v{% if true %}\f\n{% end %}\n",
+			"{% if\n true %}  {% end %}\n", "{% if\n true %}  {% end %}\nabc", "{% raw m %}x{% endm %}{% end raw m %}", "a\n{% if\n true %} \t{% end %}  \n"} {
 			check(s)
 		}
 		for i := 0; i < c.N; i++ {
